@@ -302,6 +302,11 @@ fn as_op_or_id(string: String) -> Token {
     }
 }
 
+#[cfg(any(kani, mamba_verif))]
+pub fn verif_as_op_or_id(string: String) -> Token {
+    as_op_or_id(string)
+}
+
 #[cfg(test)]
 mod test {
     use crate::parse::lex::result::LexErr;
